@@ -88,7 +88,15 @@ func MonC07(c *MonCtx) {
 		// one matching spec.template keeps the mark through its own syncs
 		ns, name := split(c.Out.Ev.A)
 		r0, r1 := c.Pre.ERS(ns, name), c.Out.Next.ERS(ns, name)
-		if r0 != nil && r1 != nil && ERSCondTrue(r0, v1.ConditionTypeCanaryFailed) && !ERSCondTrue(r1, v1.ConditionTypeCanaryFailed) {
+		markedBefore := r0 != nil && ERSCondTrue(r0, v1.ConditionTypeCanaryFailed)
+		if strings.HasPrefix(c.Out.Ev.B, "mid:canary-fail:") && c.Out.MidRan && c.Out.CmdErr == nil && r0 != nil {
+			// the user's accepted `canary fail` landed between this sync's reads and its first write
+			if e := c.Pre.EDS(ns, ownerName(r0)); e != nil && e.Status.Canary != nil && e.Status.Canary.ReplicaSet == name {
+				markedBefore = true
+				c.Antecedent("C07/fail-overtook-sync")
+			}
+		}
+		if r0 != nil && r1 != nil && markedBefore && !ERSCondTrue(r1, v1.ConditionTypeCanaryFailed) {
 			if e := c.Pre.EDS(ns, ownerName(r0)); e != nil && e.Status.ActiveReplicaSet != name {
 				if up := UpToDateRS(c.Pre, e); up != nil && up.Name == name {
 					c.Violate("C07", "C07/sticky: a replica set marked Canary-Failed lost the mark in its own sync before the rollback", name)
